@@ -92,7 +92,8 @@ def check(prog, run):
         for name, exp in outs.items():
             val = res.attrs.get(name)
             if val is None:
-                run.ob("O-degree", runm.qual, name, False, f"result field {name} is not produced by run() ({config})", witness="missing", config=config)
+                blind = hd.unknown_events(2)
+                run.ob("O-degree", runm.qual, name, None if blind else False, f"result field {name} is not produced by run() ({config})" + (f"; not decided: {blind[0]}" if blind else ""), witness="missing", config=config)
                 continue
             if hd.has_root_events() and hd.is_poisoned(val):
                 continue  # explained by the root event reported under O-hom for this configuration
@@ -106,7 +107,8 @@ def check(prog, run):
             for name, exp in mouts.items():
                 val = r2.attrs.get(name) if isinstance(r2, Obj) else None
                 if val is None or (isinstance(val, Cst) and val.v is None):
-                    run.ob("O-degree", mm.qual, name, False, f"result field {name} is not stored by mpe() ({config})", witness="missing", config=config)
+                    blind = hd.unknown_events(2)
+                    run.ob("O-degree", mm.qual, name, None if blind else False, f"result field {name} is not stored by mpe() ({config})" + (f"; not decided: {blind[0]}" if blind else ""), witness="missing", config=config)
                     continue
                 if hd.has_root_events() and hd.is_poisoned(val):
                     continue
